@@ -27,10 +27,8 @@ def getDict (j : Json) : Except String DictId := do
   | "wsymm" => pure .wsymm
   | s => throw s!"C14: unknown dict {s}"
 
-def handle (entry : String) (j : Json) : Except String Json := do
-  match entry with
-  | "call" =>
-    -- {"dict": "window"|"wsymm", "name": str|null, "size": int, "alpha": number|null}
+/-- {"dict": "window"|"wsymm", "name": str|null, "size": int, "alpha": number|null} -/
+def handleCall (j : Json) : Except String Json := do
     let d ← getDict j
     let name ← (optField j "name").mapM getStr
     let size ← getInt (← field j "size")
@@ -58,6 +56,24 @@ def handle (entry : String) (j : Json) : Except String Json := do
             ("cola2", optJson floatToJson (colaConst k ((alpha <|> (k.alphaDefault : Option Float)).getD 0) 2)),
             ("cola4", optJson floatToJson (colaConst k ((alpha <|> (k.alphaDefault : Option Float)).getD 0) 4))]
     pure <| Json.mkObj [("model", outcomeToJson model), ("func", optJson funcToJson fn), ("spec", spec)]
+
+def handle (entry : String) (j : Json) : Except String Json := do
+  match entry with
+  | "call" => handleCall j
+  | "history" =>
+    -- {"calls": [call, ...]}: a history of calls between which the CALLER changes, in place, the lists it
+    -- received.  The model of a history (`runHistory`) answers every call by `call` of that call's own
+    -- arguments, whatever was done to the store (`Props.C14.history_outcomes`), and hands out a new object
+    -- each time (`history_fresh_objects`): the payload is the payload of each call on its own, and the
+    -- identities the model assigns (run with the caller doing nothing: they do not depend on it).
+    let calls ← getArr (← field j "calls")
+    let steps ← calls.mapM handleCall
+    let mk (c : Json) : Except String (Step Float) := do
+      pure { d := ← getDict c, name := ← (optField c "name").mapM getStr, size := ← getInt (← field c "size"),
+             alpha := ← (optField c "alpha").mapM getFloat, target := 0, change := id }
+    let hist ← calls.mapM mk
+    let ids := (runHistory hist []).1.map (fun r => optJson natToJson r.2)
+    pure <| Json.mkObj [("steps", Json.arr steps), ("objects", Json.arr ids)]
   | "registry" =>
     -- the modelled state after `_generate_window_strategies()`
     let st := generated
